@@ -28,6 +28,21 @@ pub fn run(args: &[&str]) -> Option<String> {
             }
             Some(out)
         }
+        ["rangeall", h] => {
+            // convert::to_range for every ordered pair of character boundaries
+            let (s, m) = api::normalize(unhex(h)?);
+            let bs: Vec<u32> = (0..=s.len()).filter(|i| s.is_char_boundary(*i)).map(|i| i as u32).collect();
+            let mut v = Vec::new();
+            for (i, a) in bs.iter().enumerate() {
+                for b in &bs[i..] {
+                    v.push(match guarded(AssertUnwindSafe(|| api::to_range(&m, *a, *b))) {
+                        Some((l1, c1, l2, c2)) => format!("{l1}:{c1}-{l2}:{c2}"),
+                        None => "!".into(),
+                    });
+                }
+            }
+            Some(v.join(" "))
+        }
         ["posall", h, ml, mc] => {
             let (_, m) = api::normalize(unhex(h)?);
             let (ml, mc): (u32, u32) = (ml.parse().ok()?, mc.parse().ok()?);
